@@ -169,6 +169,7 @@ func c18Scenarios() map[string]*sched.Scenario {
 	add("S5/orphan+create+readtrx+history", "orphan", "create", "readtrx", "history")
 	add("S6/orphan+tick+create+stream+loaded", "orphan", "tick", "create", "stream", "loaded")
 	add("S9/truncate+readvertex+stream", "truncate", "readvertex", "stream")
+	add("S10/balance+balance+history+readtrx", "balance", "balance", "history", "readtrx")
 	addTrig := func(name string, roles ...string) {
 		m[name] = &sched.Scenario{Name: name, Params: []int{0}, Opt: opt, Body: c18TriggerBody(roles), Oracle: c18Oracle(name),
 			Setup:       func() { world.GetNodes("G") },
